@@ -485,6 +485,7 @@ func unreachedSites(x *Exec, h *ssa.Function) []string {
 					if x.AssertSites[site] == 0 {
 						res = append(res, "Assert "+site)
 					}
+				case zz + "Unreachable":
 				case zz + "Reach":
 					if c, ok := cc.Args[0].(*ssa.Const); ok && c.Value != nil {
 						tag := strings.Trim(c.Value.ExactString(), "\"")
